@@ -293,6 +293,19 @@ def run(ctx, eng):
                'the header and the preface are both filled from '
                'local_settings: they agree because nothing makes pending '
                'values current in between (only a SETTINGS frame does)')
+    cm.include(ctx, eng, 'C06',
+               lambda o: o.rule == 'FSM.cell' and isinstance(o.desc, str) and
+               o.desc.startswith(('HALF_CLOSED_LOCAL|', 'HALF_CLOSED_REMOTE|'))
+               and o.desc.split('|')[1] in (
+                   # (SEND_DATA / SEND_END_STREAM before the response
+                   # headers are finding F15, recorded under C06/C08)
+                   'RECV_PUSH_PROMISE',
+                   'SEND_PUSH_PROMISE', 'RECV_INFORMATIONAL_HEADERS',
+                   'SEND_INFORMATIONAL_HEADERS', 'RECV_DATA',
+                   'RECV_END_STREAM', 'SEND_HEADERS', 'RECV_HEADERS'),
+               'stream 1 lives in the two half-closed states from the '
+               'upgrade on: no frame that may legitimately arrive or be sent '
+               'there (a push, a 1xx response) re-opens the closed half')
     cm.include(ctx, eng, 'C10', {'ARITH.limit'},
                'the server can answer stream 1 (and the client receive the '
                'answer) whatever MAX_CONCURRENT_STREAMS was handed over: the '
